@@ -468,8 +468,18 @@ pub enum Verdict {
     Panic,
 }
 
+thread_local! {
+    /// Bumped by harness-defined blocks once per per-sample function invocation (C19).
+    pub static PROBE: std::cell::Cell<u64> = const { std::cell::Cell::new(0) };
+}
+pub fn probe_bump() {
+    PROBE.with(|p| p.set(p.get() + 1));
+}
+
 #[derive(Clone, Debug)]
 pub struct CallObs {
+    /// per-sample function invocations of a harness-defined block during this call
+    pub probe_delta: u64,
     pub verdict: Verdict,
     /// (stream id, need, closed) when the verdict names a stream
     pub named: Option<(usize, usize, bool)>,
@@ -566,6 +576,7 @@ fn call(built: &mut Built, in_schedule: bool) -> CallObs {
     let in_closed: Vec<bool> = built.ins.iter().map(|p| p.is_closed()).collect();
     let out_closed: Vec<bool> = built.outs.iter().map(|p| p.is_closed()).collect();
     let block = &mut built.block;
+    let probe_before = PROBE.with(|p| p.get());
     let r = catch(|| match block.work() {
         Ok(BlockRet::Again) => (Verdict::Again, None),
         Ok(BlockRet::Pending) => (Verdict::Pending, None),
@@ -593,6 +604,7 @@ fn call(built: &mut Built, in_schedule: bool) -> CallObs {
         .map(|(p, b)| if p.is_closed() { 0 } else { p.available().saturating_sub(*b) })
         .collect();
     CallObs {
+        probe_delta: PROBE.with(|p| p.get()) - probe_before,
         verdict,
         named,
         consumed,
